@@ -14,6 +14,9 @@ pub assume_specification<F: FnOnce() -> core::cmp::Ordering>[ core::cmp::Orderin
     ensures o != core::cmp::Ordering::Equal ==> r == o, o == core::cmp::Ordering::Equal ==> f.ensures((), r);
 pub assume_specification[ core::cmp::Ordering::then ](o: core::cmp::Ordering, other: core::cmp::Ordering) -> (r: core::cmp::Ordering)
     ensures r == (if o != core::cmp::Ordering::Equal { o } else { other });
+pub assume_specification<T, F: FnOnce() -> Option<T>>[ Option::<T>::or_else ](o: Option<T>, f: F) -> (r: Option<T>)
+    requires o is None ==> f.requires(()),
+    ensures o is Some ==> r == o, o is None ==> f.ensures((), r);
 pub assume_specification<T, P: FnOnce(&T) -> bool>[ Option::<T>::filter ](o: Option<T>, p: P) -> (r: Option<T>)
     requires o is Some ==> p.requires((&o->Some_0,)),
     ensures o is None ==> r is None, o is Some ==> (r is None || r == o), o is Some ==> (p.ensures((&o->Some_0,), true) ==> r == o);
